@@ -49,7 +49,7 @@ MANIFEST_NOTE = ("Trusted: Lean kernel (+propext/Classical.choice/Quot.sound), t
                  "out-of-dialect byte streams: only 'no crash, no hang (60 s alarm), success or Dune exception' is checked, the model is "
                  "not compared there (it is nevertheless total: parse_total).  Not claimed: '#' inside quoted values, a quote character "
                  "inside a value quoted with the same character, a negative literal for an unsigned target (answer masked as 'noclaim'), "
-                 "names that are both value and group (modelled, oracle abstains), long double, report()/className texts, the C-library "
+                 "names that are both value and group at once (modelled, oracle abstains; a key that merely runs through a leaf is claimed absent), long double, report()/className texts, the C-library "
                  "locale (setlocale; only C/POSIX is installed - the global C++ locale is varied).  parse_render is stated for "
                  "overwrite=true; for overwrite=false into an empty tree the same values follow from overwrite_flag_spec and the "
                  "same key order from keys_in_first_appearance_order.  The model describes the repaired code (repo commits 27625ff parseRange trailing-text check, "
